@@ -318,6 +318,8 @@ func c08(p *model.Prog, r *report.Result) {
 	c08r1011(p, r, runLoop)
 	w5PackerMsgLen(p, r, "C08.R15")
 	w5CsidForms(p, r, "C08.R16")
+	w6CopyBuffers(p, r, "C08.R17")
+	w6PeerChunkSize(p, r, "C08.R18")
 	c08r1314(p, r, runLoop)
 }
 
